@@ -122,8 +122,9 @@ def op_strategy(draw):
     if k in ("index", "neg"):
         return [k, draw(st.integers(0, 10 ** 6))]
     if k == "slice":
-        return ["slice", draw(st.one_of(st.none(), st.integers(-500, 500))),
-                draw(st.one_of(st.none(), st.integers(-500, 500))),
+        # bounds are mapped into [-n-2, n+2] when the file length n is known (all sign combinations in range)
+        return ["slice", draw(st.one_of(st.none(), st.integers(0, 10 ** 6))),
+                draw(st.one_of(st.none(), st.integers(0, 10 ** 6))),
                 draw(st.one_of(st.none(), st.integers(-7, 7).filter(lambda v: v != 0)))]
     if k == "adv":
         return ["adv", draw(st.integers(0, 5)), draw(st.integers(1, 30))]
@@ -202,7 +203,8 @@ def check(case):
             same(lib("index", sg.__getitem__, k - n), k, "step %d sg[%d]" % (step, k - n))
             backward |= partial and last_pos is not None and k < last_pos
         elif kind == "slice":
-            sl = slice(op[1], op[2], op[3])
+            lo, hi = (None if v is None else v % (2 * n + 5) - n - 2 for v in op[1:3])
+            sl = slice(lo, hi, op[3])
             got = lib("slice", sg.__getitem__, sl)
             idx = list(range(n))[sl]
             if len(got) != len(idx):
